@@ -364,6 +364,31 @@ def generic_replay(suite, judge_module, judge_cfg, specdirs, env=None):
     return replay
 
 
+def binding_selftest(ctx, module, cfg, obsfile, corrupt, n=200, env=None, label="selftest"):
+    """Demonstrate that the judge is bound to the observations: corrupt one recorded field in each of the
+    first n records of an observation file and require that the judge rejects at least one of them.
+    A judge that accepts corrupted observations is vacuous: machinery failure (exit 2), never a verdict."""
+    recs = ctx.read_ndjson(obsfile)[:n]
+    changed = []
+    for r in recs:
+        r2 = json.loads(json.dumps(r))
+        if corrupt(r2):
+            changed.append(r2)
+    if not changed:
+        raise Broken("binding self-test: no record could be corrupted in %s" % obsfile)
+    f = obsfile + ".corrupt"
+    ctx.write_ndjson(f, changed)
+    before = (ctx.judged, ctx.nontrivial, list(ctx.verdicts), dict(ctx.coverage_extra))
+    vs = ctx.judge(module, cfg, f, env=env, label=label)
+    ctx.judged, ctx.nontrivial, ctx.verdicts, ctx.coverage_extra = before[0], before[1], before[2], before[3]
+    bad = [v for v in vs if not v.get("class", "").startswith("drift:")]
+    if not bad:
+        raise Broken("binding self-test: %s accepted %d corrupted observation records" % (module, len(changed)))
+    ctx.coverage_extra["binding_selftest"] = "%d of %d deliberately corrupted records rejected by %s" % (
+        len({v.get("id") for v in bad}), len(changed), module)
+    ctx.note("binding self-test: %s" % ctx.coverage_extra["binding_selftest"])
+
+
 # ------------------------------------------------------------ known findings
 def load_known():
     p = os.path.join(VERIF, "known_findings.json")
